@@ -1,5 +1,6 @@
 import PgBifrost.Proofs.S3
 import PgBifrost.Gen.S3Src
+import PgBifrost.Gen.TimeSrc
 import PgBifrost.Gen.S3WorkerSrc
 import PgBifrost.Gen.WorkerLoops
 /-!
@@ -347,6 +348,18 @@ theorem s3_worker_as_in_source :
       | cons r0 rest =>
         cases hr : (retry zlen cfg.budget 0 0 script).2 <;> by_cases hm : cancel = .mid <;>
           simp [he, hm, PgBifrost.WorkerLoop.iteration]
+
+/-- `RealTime.DateString` as written: the year is `strconv.Itoa` of the date's year; month, day and hour go through the
+zero-padding helper, which (translated) yields exactly two decimal digits for every value below 100 - so for every month,
+day and hour; the hour is the 24-hour `now.Hour()`; the full stamp is `now.Format` with the 24-hour layout
+`20060102150405`. This is where the `CleanTime` hypothesis of the key theorems comes from for the real clock. -/
+theorem date_string_as_in_source :
+    PgBifrost.Gen.TimeSrc.parts =
+      ["strconv.Itoa(now.Date()#0)", "intDateToNormalString(int(now.Date()#1))", "intDateToNormalString(now.Date()#2)",
+       "intDateToNormalString(now.Hour())", "now.Format(\"20060102150405\")"] ∧
+    ((List.range 100).all fun n =>
+      (PgBifrost.Gen.TimeSrc.pad n).length == 2 && (PgBifrost.Gen.TimeSrc.pad n).toList.all Char.isDigit) = true :=
+  ⟨rfl, by decide⟩
 
 /-! ## non-vacuity -/
 
